@@ -101,17 +101,27 @@ def _meas(ids):
     return [('m%d' % i, float(i), 1.0) for i in ids] or None
 
 
+def _count(t):
+    if not t.get('v'):
+        return t['r']
+    from qupulse.program.volatile import VolatileRepetitionCount
+    from qupulse.expressions import ExpressionScalar
+    from qupulse.parameter_scope import DictScope
+    return VolatileRepetitionCount(expression=ExpressionScalar('n'),
+                                   scope=DictScope.from_mapping({'n': t['r']}, volatile={'n'}))
+
+
 def build_tree_ctor(t):
     from qupulse.program.loop import Loop
     return Loop(children=[build_tree_ctor(c) for c in t['c']],
                 waveform=None if t['w'] is None else build_wf(t['w']),
-                measurements=_meas(t['m']), repetition_count=t['r'])
+                measurements=_meas(t['m']), repetition_count=_count(t))
 
 
 def build_tree_append(t):
     from qupulse.program.loop import Loop
     node = Loop(waveform=None if t['w'] is None else build_wf(t['w']), measurements=_meas(t['m']),
-                repetition_count=t['r'])
+                repetition_count=_count(t))
     for c in t['c']:
         node.append_child(loop=build_tree_append(c))
     return node
@@ -455,6 +465,8 @@ def to_coq(case, obs):
     else:
         dp = obs['depth'] if obs['depth'] is not None else -1
         o = '(ObsOk %s %s %s %s)' % (g_tree(obs['after']), gQ(F(obs['dur'])), gZ(dp), gbool(bool(obs['bal'])))
+    if case.get('volatile'):
+        return '(CSpecOnly %s %s %s %s)' % (g_tree(obs['mid']), path, g_op(lop), o)
     if obs['prefix']:
         pre = glist(lambda st: '(%s, %s)' % (gpath(st[0]), g_op(st[1])), obs['prefix'])
         return '(CSeq %s %s %s %s %s %s)' % (g_tree(obs['input']), pre, g_tree(obs['mid']), path, g_op(lop), o)
@@ -503,6 +515,8 @@ def histogram_keys(case, obs):
         keys.append('at:' + ('root' if not case['path'] else 'inner'))
         if obs.get('prefix'):
             keys.append('sequence_len:%d' % (len(obs['prefix']) + 1))
+        if case.get('volatile'):
+            keys.append('volatile_counts(spec only)')
     if 'build' in case:
         b = case['build']
         keys.append('build:' + ('template' if 'template' in b else b.get('style', 'ctor') +
@@ -618,17 +632,18 @@ def g_tree_rec(rng, chans, depth, opts):
         if rng.random() < 0.3:
             meas.append(opts['mctr'][0])
             opts['mctr'][0] += 1
+    vol = bool(opts.get('vol')) and rep >= 1 and rng.random() < 0.3
     if depth <= 0 or (rng.random() < 0.3 and not opts.get('top')):
         if opts.get('empty') and rng.random() < 0.2:
             return {'r': rep, 'w': None, 'm': meas, 'c': []}
-        return {'r': rep, 'w': g_leafwf(rng, chans, opts.get('composite', True)), 'm': meas, 'c': []}
+        return {'r': rep, 'w': g_leafwf(rng, chans, opts.get('composite', True)), 'm': meas, 'c': [], 'v': vol}
     n = rng.choice([1, 1, 2, 2, 3, 4])
     opts = dict(opts, top=False)
     ch = [g_tree_rec(rng, chans, depth - 1, opts) for _ in range(n)]
     if opts.get('empty') and rng.random() < 0.1:
         ch = []
         return {'r': rep, 'w': None, 'm': meas, 'c': []}
-    return {'r': rep, 'w': None, 'm': meas, 'c': ch}
+    return {'r': rep, 'w': None, 'm': meas, 'c': ch, 'v': vol}
 
 
 def _json_wf_dur(w):
@@ -850,6 +865,18 @@ def gen_cases(rng, tier, ctx):
         steps = [rnd_step() + [rng.random() < 0.5] for _ in range(rng.randint(1, 3))]
         lp, lo = rnd_step()
         cases.append({'kind': 'rw', 'build': b, 'prefix': steps, 'path': lp, 'op': lo})
+    # --- volatile repetition counts: specification only (not modelled) ------------------------------------------------
+    for _ in range(220 * mult):
+        chans = rng.choice([['A'], ['A', 'B']])
+        t = gen_tree(rng, chans, 4, vol=True, meas=rng.random() < 0.5)
+        b = {'tree': t, 'style': rng.choice(['ctor', 'append']), 'read_dur': rng.random() < 0.5}
+        lp, lo = rnd_step()
+        if rng.random() < 0.6:
+            lp = some_path(t, lambda n, p: len(n['c']) >= 1, 0.5) or []
+            lo = rng.choice([['flatten', rng.choice([0, 1, 2, 3])], ['flatten', 1], ['cleanup', True, True],
+                              ['cleanup', False, True], ['merge'], ['merge'], ['split', None]])
+        cases.append({'kind': 'rw', 'build': b, 'prefix': [rnd_step() + [False] for _ in range(rng.randint(0, 2))],
+                      'path': lp, 'op': lo, 'volatile': True})
     # --- to_waveform -------------------------------------------------------------------------------------------------
     for _ in range(200 * mult):
         b, t = gen_build(rng, tier, meas=False)
@@ -919,6 +946,86 @@ def exhaustive_small(rng):
                 cases.append({'kind': 'rw', 'build': b, 'path': [], 'op': ['make_compat', 2, 2, '1']})
                 cases.append({'kind': 'twf', 'build': b})
     return cases
+
+
+# ---------------------------------------------------------------------------------------------------------------------
+# shrinking a failing case (greedy; the oracle is the whole check: python part + both Coq checks on the single case)
+
+def _still_fails(case, ctx, counter):
+    import time
+    if counter['n'] >= 40 or time.time() - counter['t0'] > 150:
+        return None
+    counter['n'] += 1
+    obs = run_impl(case)
+    if py_spec(case, obs) is not None:
+        return obs
+    try:
+        wd = os.path.join(ctx['workdir'], 'shrink')
+        res = vlib.run_coq_cases(wd, CORR_IMPORTS, [CHECK_CORR, CHECK_SPEC], [to_coq(case, obs)], shard=SHARD, jobs=1)
+    except Exception:
+        return None
+    return obs if (res[CHECK_CORR] or res[CHECK_SPEC]) else None
+
+
+def _tree_variants(t, keep_path):
+    """smaller trees: drop one child (not on keep_path), lower a count, simplify a leaf, drop measurements"""
+    out = []
+
+    def rec(n, path, rebuild):
+        for i in range(len(n['c'])):
+            if tuple(keep_path[:len(path) + 1]) != tuple(path + [i]) and len(n['c']) > 1:
+                if not (keep_path[:len(path)] == path and len(keep_path) > len(path) and keep_path[len(path)] > i):
+                    out.append(rebuild(dict(n, c=n['c'][:i] + n['c'][i + 1:])))
+        if n['r'] > 1:
+            out.append(rebuild(dict(n, r=n['r'] - 1)))
+        if n['m']:
+            out.append(rebuild(dict(n, m=[])))
+        if n.get('v'):
+            out.append(rebuild(dict(n, v=False)))
+        if n['w'] is not None and n['w']['k'] in ('seq', 'rep', 'par'):
+            inner = n['w']['l'][0] if n['w']['k'] != 'rep' else n['w']['b']
+            if n['w']['k'] != 'par':
+                out.append(rebuild(dict(n, w=inner)))
+        for i, c in enumerate(n['c']):
+            rec(c, path + [i], lambda x, i=i, n=n, rebuild=rebuild: rebuild(dict(n, c=n['c'][:i] + [x] + n['c'][i + 1:])))
+    rec(t, [], lambda x: x)
+    return out
+
+
+def shrink(case, obs, ctx):
+    import time
+    if case.get('kind') != 'rw' or 'tree' not in case.get('build', {}):
+        return case, obs
+    counter = {'n': 0, 't0': time.time()}
+    best, best_obs = case, obs
+    progress = True
+    while progress:
+        progress = False
+        cands = []
+        pre = best.get('prefix', [])
+        for i in range(len(pre)):
+            cands.append(dict(best, prefix=pre[:i] + pre[i + 1:]))
+        b = best['build']
+        if b.get('reverse'):
+            cands.append(dict(best, build={k: v for k, v in b.items() if k != 'reverse'}))
+        if b.get('read_dur'):
+            cands.append(dict(best, build=dict(b, read_dur=False)))
+        if best['path'] and not pre and not b.get('reverse'):          # re-root at the first child on the path
+            sub = b['tree']['c'][best['path'][0]] if best['path'][0] < len(b['tree']['c']) else None
+            if sub is not None and (len(best['path']) > 1 or best['op'][0] != 'unroll'):
+                cands.append(dict(best, build=dict(b, tree=sub), path=best['path'][1:]))
+        keep = best['path'] if not b.get('reverse') else None
+        if keep is not None:
+            for tv in _tree_variants(b['tree'], list(keep)):
+                cands.append(dict(best, build=dict(b, tree=tv)))
+        for c in cands:
+            o = _still_fails(c, ctx, counter)
+            if o is not None:
+                best, best_obs, progress = c, o, True
+                break
+            if counter['n'] >= 40:
+                break
+    return best, best_obs
 
 
 # ---------------------------------------------------------------------------------------------------------------------
